@@ -350,3 +350,70 @@ def ancestor_chains(prog: Program, root: FuncInfo, pred, depth=4):
             if isinstance(n, ast.Call) and pred(f, n):
                 res.append((f, n, up(f, n, 0)))
     return res
+
+
+def delegate(prog: Program, fn: FuncInfo, depth: int = 0) -> FuncInfo:
+    """A known function whose whole work was moved into an unknown helper and that only wraps the call (a lock taken around it, a lazily
+    created lock, a try / finally, log lines) stands for that helper: the rules about the function's body are rules about the moved body.
+    Returns fn itself unless its body - docstring, logging, lazy `if self.x is None: self.x = <constructor>()` initialisers aside - is,
+    possibly inside with / try wrappers, one awaited or plain call `self.<helper>(<own parameters>)` of an unknown helper, optionally returned."""
+    def trivial(s):
+        if isinstance(s, ast.Expr) and isinstance(s.value, ast.Constant):
+            return True
+        if isinstance(s, ast.Expr) and isinstance(s.value, ast.Call) and isinstance(s.value.func, ast.Attribute) and isinstance(s.value.func.value, ast.Name) \
+                and s.value.func.value.id in ("_LOGGER", "logger", "LOGGER", "logging"):
+            return True
+        if isinstance(s, ast.If) and not s.orelse and all(isinstance(b, (ast.Assign, ast.AnnAssign)) and isinstance(getattr(b, "value", None), ast.Call) for b in s.body) \
+                and isinstance(s.test, ast.Compare) and len(s.test.ops) == 1 and isinstance(s.test.ops[0], ast.Is) \
+                and isinstance(s.test.comparators[0], ast.Constant) and s.test.comparators[0].value is None:
+            return True
+        return isinstance(s, ast.Pass)
+
+    def core(stmts):
+        rest = [s for s in stmts if not trivial(s)]
+        if len(rest) != 1:
+            return None
+        s = rest[0]
+        if isinstance(s, (ast.With, ast.AsyncWith)):
+            return core(s.body)
+        if isinstance(s, ast.Try) and not s.handlers and not s.orelse:
+            return core(s.body)
+        v = s.value if isinstance(s, (ast.Expr, ast.Return)) else None
+        if isinstance(v, ast.Await):
+            v = v.value
+        return v if isinstance(v, ast.Call) else None
+    if depth > 2 or fn is None:
+        return fn
+    c = core(fn.node.body)
+    if c is None:
+        return fn
+    t = unknown_callee(prog, fn, c)
+    if t is None or t.cls is not fn.cls:
+        return fn
+    own = set(fn.params)
+    if not all(isinstance(a, ast.Name) and a.id in own for a in c.args) or not all(isinstance(k.value, ast.Name) and k.value.id in own for k in c.keywords):
+        return fn
+    return delegate(prog, t, depth + 1)
+
+def passed_for(prog, chain, helper, param):
+    """[(caller, caller summary, term)]: what the functions of the chain pass for `param` at their calls of `helper`"""
+    from .terms import summarize
+    out = []
+    names = helper.params[1:] if helper.kind in ("method", "classmethod") else helper.params
+    for cf in chain:
+        if cf is helper:
+            continue
+        cs = summarize(prog, cf)
+        for n in ast.walk(cf.node):
+            if isinstance(n, ast.Call) and unknown_callee(prog, cf, n) is helper:
+                arg = None
+                if param in names and names.index(param) < len(n.args):
+                    arg = n.args[names.index(param)]
+                for k in n.keywords:
+                    if k.arg == param:
+                        arg = k.value
+                t = cs.ta.terms_at.get(arg) if arg is not None else None
+                if t is None:
+                    return []
+                out.append((cf, cs, t))
+    return out
